@@ -28,7 +28,6 @@ import (
 	circularQueue "github.com/goblimey/go-ntrip/apps/proxy/circular_queue"
 	reportfeed "github.com/goblimey/go-ntrip/apps/proxy/reportfeed"
 	rtcm "github.com/goblimey/go-ntrip/rtcm/handler"
-	"github.com/goblimey/go-ntrip/rtcm/pushback"
 	"github.com/goblimey/go-tools/dailylogger"
 )
 
@@ -389,26 +388,24 @@ func allZero(c []int) bool {
 // expectedDisplays is the display text of each message of the sequential
 // framing of the client stream, produced by a handler configured as the proxy's.
 func expectedDisplays(stream []byte) (out []string, fault string) {
-	ch := make(chan byte, len(stream)+1)
-	for _, b := range stream {
-		ch <- b
-	}
-	close(ch)
+	// segmentation by the independent reference (ref.Segment; C03 ties the
+	// implementation's framing to it), each segment displayed by the library
 	h := rtcm.New(t0, slog.LevelInfo)
-	pb := pushback.New(ch)
 	defer func() {
 		if p := recover(); p != nil {
-			fault = fmt.Sprint("sequential framing panicked: ", p)
+			fault = fmt.Sprint("display of the sequential framing panicked: ", p)
 		}
 	}()
-	for i := 0; i <= len(stream)+2; i++ {
-		m, err := h.FetchNextMessageFrame(pb)
-		if err != nil && err.Error() == "done" {
-			return
+	for _, sg := range ref.Segment(stream) {
+		var m *rtcm.Message
+		if sg.Type >= 0 {
+			m, _ = h.GetMessage(sg.Raw)
+		} else {
+			m = rtcm.NewNonRTCM(sg.Raw)
 		}
 		out = append(out, m.String()+"\n")
 	}
-	return out, "no progress"
+	return out, ""
 }
 
 func unescape(s string) string {
@@ -446,9 +443,12 @@ func scenarios(tier string) []*mcrt.Scenario {
 		"bigmasks+frame": append(ref.TypedFrame(1077, 30, mask), f...),
 		"frame+frame+D3": append(append(append([]byte{}, f...), html...), 0xD3),
 		"junk":           []byte("GET /x\r\n"),
+		// an opening bracket with no closing one (the page's own next '>' would close the tag)
+		"lt-only+frame": append([]byte("<img src=x \n"), ref.TypedFrame(1005, 6, func(i int) byte { return []byte{0, 0, '<', 'i', 'm', 'g'}[i] })...),
+		"gt-only":       []byte("a > b\r\n"),
 	}
 	server := map[string][]byte{"text": []byte("ICY 200 OK\r\n"), "binary": {0x00, 0xD3, 0xFF, '<'}, "none": {}}
-	order := []string{"frame", "htmlframe+D3", "htmljunk+frame", "shortMSM+frame", "bigmasks+frame", "frame+frame+D3", "junk"}
+	order := []string{"frame", "htmlframe+D3", "htmljunk+frame", "shortMSM+frame", "bigmasks+frame", "frame+frame+D3", "junk", "lt-only+frame", "gt-only"}
 	var scs []*mcrt.Scenario
 	for _, cn := range order {
 		for _, sn := range []string{"text", "binary", "none"} {
